@@ -31,6 +31,7 @@ type TempPool struct {
 	setproposall                      sync.Mutex
 	setballotl                        sync.Mutex
 	expeloperationl                   sync.Mutex
+	setoperationl                     sync.Mutex
 }
 
 func NewTempPool(
@@ -425,6 +426,10 @@ func (db *TempPool) SetOperation(_ context.Context, op base.Operation) (bool, er
 	oph := op.Hash()
 
 	key, orderedkey := newNewOperationLeveldbKeys(op.Hash())
+
+	// NOTE check and put should be atomic; the operation is added once
+	db.setoperationl.Lock()
+	defer db.setoperationl.Unlock()
 
 	switch found, err := pst.Exists(key); {
 	case err != nil:
